@@ -7,9 +7,6 @@ Import ListNotations.
 (* 1. lines                                                                                          *)
 (* ================================================================================================ *)
 
-Definition is_empty (l : text) : bool := match l with [] => true | _ => false end.
-Definition lead_blank (ls : list text) : nat := length (take_while blank ls).
-Definition lead_empty (ls : list text) : nat := length (take_while is_empty ls).
 
 Lemma split_nl_nonnil : forall s, split_nl s <> [].
 Proof.
@@ -342,7 +339,6 @@ Proof.
 Qed.
 
 (* ---- alignment ------------------------------------------------------------------------------------------------ *)
-Definition top_dropped (s : text) : nat := lead_blank (split_nl (expandtabs s)).
 
 Lemma linenum_is_top_dropped : forall s n0, has_content s = true ->
   linenum_of_docstring false n0 s = phys_line n0 (top_dropped s).
@@ -849,3 +845,99 @@ Lemma alignment_refuted_by_one :
   nth_error (cleandoc_lines w_doc) 0 = clean_line_of_value_line w_doc 1 /\
   nth_error (cleandoc_lines w_doc) 1 = clean_line_of_value_line w_doc 2.
 Proof. vm_compute. repeat split. Qed.
+
+(* the reST reader stores docutils' 1-based line as a 0-based one: every reST parse error is reported one line
+   below the block docutils names (cleaned line L-1 is on physical line ds + L - 1) *)
+Lemma rst_parse_error_one_too_large : forall ds ln m d L, ds <> 0 -> 1 <= L ->
+  report_line sec_docstring ds ln (perr_offset (rst_reader_perr d (Some L))) m = Num (ds + (L - 1) + 1).
+Proof.
+  intros ds ln m d L Hds HL. unfold rst_reader_perr. rewrite perr_offset_zero_based by lia.
+  rewrite (report_line_docstring_sections sec_docstring ds ln L m eq_refl Hds). f_equal. lia.
+Qed.
+
+Lemma rst_parse_error_line_refuted :
+  ~ (forall ds ln m d L, ds <> 0 -> 1 <= L ->
+       report_line sec_docstring ds ln (perr_offset (rst_reader_perr d (Some L))) m = Num (ds + (L - 1))).
+Proof.
+  intros H. specialize (H 2 0 false [] 1 ltac:(lia) ltac:(lia)). vm_compute in H. discriminate.
+Qed.
+
+Lemma epytext_parse_error_line : forall ds ln m d startline, ds <> 0 -> 0 <= startline ->
+  report_line sec_docstring ds ln (perr_offset (epytext_perr d startline)) m = Num (ds + startline).
+Proof.
+  intros ds ln m d z Hds Hz. unfold epytext_perr. rewrite perr_offset_zero_based by lia.
+  apply (report_line_docstring_sections sec_docstring ds ln z m eq_refl Hds).
+Qed.
+
+(* ================================================================================================ *)
+(* 6. by how much the docstring line overshoots in general                                           *)
+(* ================================================================================================ *)
+Lemma lead_empty_map_le : forall rest m,
+  (forall l i, In l rest -> indent_of l = Some i -> (m <= i)%nat) ->
+  (lead_empty (map (skipn m) rest) <= lead_blank rest)%nat.
+Proof.
+  induction rest as [|l rest IH]; intros m Hm; [cbn; lia|].
+  unfold lead_empty, lead_blank in *. cbn [map take_while]. destruct (blank l) eqn:Hb.
+  - cbn [length]. assert (H : (length (take_while is_empty (map (skipn m) rest)) <= length (take_while blank rest))%nat).
+    { apply IH. intros l' i Hin. apply Hm. right. exact Hin. }
+    destruct (is_empty (skipn m l)); cbn [length]; lia.
+  - destruct (indent_of_nonblank l Hb) as [i [Hi Hlt]]. pose proof (Hm l i (or_introl eq_refl) Hi) as Hmi.
+    destruct (skipn m l) as [|c r] eqn:E.
+    + exfalso. assert (Hlen : length (skipn m l) = 0%nat) by (rewrite E; reflexivity).
+      rewrite skipn_length in Hlen. lia.
+    + cbn. lia.
+Qed.
+
+Lemma lead_empty_dedent_le : forall lines, forallb blank lines = false ->
+  (lead_empty (dedent lines) <= lead_blank lines)%nat.
+Proof.
+  intros [|first rest] Hc; [discriminate|].
+  cbn [dedent]. unfold lead_empty, lead_blank. cbn [take_while forallb] in *. destruct (blank first) eqn:Hb.
+  - rewrite (lstrip_blank first Hb). cbn [is_empty length andb] in *.
+    destruct (margin_fold_exists rest None Hc) as [m Hm]. unfold margin_of. rewrite Hm.
+    pose proof (lead_empty_map_le rest m (proj2 (margin_fold_le rest None m Hm))) as H.
+    unfold lead_empty, lead_blank in H. lia.
+  - pose proof (lstrip_nonblank first Hb) as Hn. destruct (lstrip first); [contradiction|cbn; lia].
+Qed.
+
+Lemma cleandoc_overshoot_nat : forall s i, has_content s = true ->
+  (i < length (cleandoc_lines s))%nat ->
+  (top_kept s <= top_dropped s)%nat /\
+  nth_error (cleandoc_lines s) i = clean_line_of_value_line s (top_kept s + i).
+Proof.
+  intros s i Hc Hi. unfold cleandoc_lines, top_kept, top_dropped in *.
+  set (lines := split_nl (expandtabs s)) in *.
+  assert (H : forallb blank lines = false).
+  { unfold lines, expandtabs. rewrite <- (has_content_expandtabs s 0) in Hc. rewrite has_content_lines in Hc.
+    apply negb_true_iff in Hc. exact Hc. }
+  pose proof (lead_empty_dedent_le lines H) as Hle. split; [exact Hle|].
+  rewrite clean_lines_nth; [| rewrite dedent_length; pose proof (lead_blank_lt _ H); lia | exact Hi].
+  rewrite dedent_nth. unfold clean_line_of_value_line, doc_margin. fold lines.
+  generalize (lead_empty (dedent lines) + i)%nat as j. intros j.
+  generalize (margin_of (tl lines)) as M. intros M.
+  assert (E : nth_error lines j = option_map expandtabs (nth_error (split_nl s) j)).
+  { unfold lines. rewrite split_expandtabs. apply nth_error_map'. }
+  rewrite E. destruct (nth_error (split_nl s) j); reflexivity.
+Qed.
+
+Lemma cleandoc_overshoot : forall (s : text) (n0 : Z) (i : nat),
+  has_content s = true -> (i < length (cleandoc_lines s))%nat ->
+  exists j : nat,
+    (top_kept s <= top_dropped s)%nat /\
+    (linenum_of_docstring false n0 s + Z.of_nat i)%Z = (phys_line n0 j + Z.of_nat (top_dropped s - top_kept s))%Z /\
+    nth_error (cleandoc_lines s) i = clean_line_of_value_line s j.
+Proof.
+  intros s n0 i Hc Hi. destruct (cleandoc_overshoot_nat s i Hc Hi) as [Hle Hn].
+  exists (top_kept s + i)%nat. split; [exact Hle|]. split; [|exact Hn].
+  rewrite (linenum_is_top_dropped s n0 Hc). unfold phys_line. lia.
+Qed.
+
+Lemma fit_no_overshoot : forall s, has_content s = true -> leading_ws_fit s = true -> top_kept s = top_dropped s.
+Proof.
+  intros s Hc Hfit. unfold top_kept, top_dropped.
+  set (lines := split_nl (expandtabs s)) in *.
+  assert (H : forallb blank lines = false).
+  { unfold lines, expandtabs. rewrite <- (has_content_expandtabs s 0) in Hc. rewrite has_content_lines in Hc.
+    apply negb_true_iff in Hc. exact Hc. }
+  apply lead_empty_dedent; [exact H|]. unfold leading_ws_fit in Hfit. fold lines in Hfit. exact Hfit.
+Qed.
